@@ -27,6 +27,7 @@ def tyName : Ty → String
   | .array _ _ => "Array" | .hash _ _ _ => "Hash" | .tuple _ _ => "Tuple" | .struct _ => "Struct" | .variant _ => "Variant"
   | .optional _ => "Optional" | .notUndef _ => "NotUndef" | .typ _ => "Type" | .sensitive _ => "Sensitive"
   | .iterator _ => "Iterator"
+  | .callable _ _ _ => "Callable"
   | .runtime _ _ _ => "Runtime"
   | .iterable _ => "Iterable" | .object _ => "Object"
 
